@@ -292,8 +292,11 @@ namespace
         else if (pits == 0)
         {
             // bounded walk: every reachable node ends at a base level within n steps (first receivers)
+            // (on very large grids a sample of start nodes: strict decrease on every edge and the absence of pits, checked
+            // above for all nodes, already imply termination)
             long walked = 0;
-            for (std::size_t i = 0; i < n; ++i)
+            const std::size_t stride = n > 20000 ? n / 64 : 1;
+            for (std::size_t i = 0; i < n; i += stride)
             {
                 if (!reach[i] || c.masked(i))
                     continue;
@@ -472,6 +475,31 @@ namespace
         }
         if (!same_bits(a1, a2, "returning vs in-place (array source)"))
             return;
+        if (rng.chance(0.3))
+        {
+            // the same source handed over as another kind of array expression (column-major container, strided view into a
+            // larger array, element-wise expression): same values, so the same result
+            xt::xarray<double, xt::layout_type::column_major> cm = src_arr;
+            auto shp = grid_shape_vec(c.env.g);
+            auto big_shape = shp;
+            big_shape[0] *= 2;
+            arr_t big = arr_t::from_shape(big_shape);
+            big.fill(-123.0);
+            xt::strided_view(big, { xt::range(0, static_cast<std::ptrdiff_t>(big_shape[0]), 2), xt::ellipsis() }) = src_arr;
+            auto view = xt::strided_view(big, { xt::range(0, static_cast<std::ptrdiff_t>(big_shape[0]), 2), xt::ellipsis() });
+            arr_t acc_cm = graph.accumulate(cm);
+            arr_t acc_view = graph.accumulate(view);
+            arr_t acc_expr = graph.accumulate(src_arr * 1.0);
+            arr_t acc_view_inplace = arr_t::from_shape(shp);
+            acc_view_inplace.fill(5.0);
+            graph.accumulate(acc_view_inplace, view);
+            c.R.count("c03.source_expression_kinds_compared");
+            if (!same_bits(a1, flat_vec(acc_cm), "row-major vs column-major source container")
+                || !same_bits(a1, flat_vec(acc_view), "array vs strided view source")
+                || !same_bits(a1, flat_vec(acc_expr), "array vs element-wise expression source")
+                || !same_bits(a1, flat_vec(acc_view_inplace), "array vs strided view source (in-place)"))
+                return;
+        }
         if (scalar || kind == 1)
         {
             arr_t acc3 = graph.accumulate(sval);
@@ -516,6 +544,10 @@ namespace
             areas_nonneg = areas_nonneg && c.env.grid->nodes_areas(i) >= 0;
         if (!areas_nonneg)
             c.R.count("c03.states_with_negative_node_areas");
+        // the library adds contributions in double along the flow paths: one rounding per step, so the distance between its
+        // result and the long double recomputation grows with the path length (number of breadth-first levels)
+        const long double depth = static_cast<long double>(S.levels.size() > 1 ? S.levels.size() - 1 : n);
+        const long double rel = std::max(1e-12L, 4.0L * std::numeric_limits<double>::epsilon() * (depth + 2.0L));
         bool weights_ok = true;
         while (!stack.empty())
         {
@@ -576,7 +608,7 @@ namespace
                 }
             }
             for (std::size_t i = 0; i < n; ++i)
-                if (!(std::fabs(static_cast<long double>(unit[i]) - wu[i]) <= 1e-12L * au[i] + 1e-300L))
+                if (!(std::fabs(static_cast<long double>(unit[i]) - wu[i]) <= rel * au[i] + 1e-300L))
                 {
                     c.fail(P, "not_upstream_integral", std::string(state ? "graph snapshot, " : "") + "unit scalar source: node " + std::to_string(i) + " accumulate(1.0)=" + jnum(unit[i]) + " recomputed=" + jnum(static_cast<double>(wu[i])));
                     break;
@@ -586,7 +618,7 @@ namespace
         bool local_ok = true;
         for (std::size_t i = 0; i < n; ++i)
         {
-            long double tol = 1e-12L * absw[i] + 1e-300L;
+            long double tol = rel * absw[i] + 1e-300L;
             if (!(std::fabs(static_cast<long double>(a1[i]) - want[i]) <= tol))
             {
                 c.fail(P, "not_upstream_integral", "node " + std::to_string(i) + " accumulate=" + jnum(a1[i]) + " recomputed=" + jnum(static_cast<double>(want[i])) + " source=" + kname);
@@ -605,6 +637,40 @@ namespace
             }
         }
         c.R.count("c03.nodes_compared", static_cast<long>(n));
+        if (local_ok && weights_ok)
+        {
+            // the recurrence itself, node by node, with the library's own values at the donors: independent of the path
+            // length, so the tolerance is a few roundings of the terms actually added at that node
+            std::vector<long double> lw(n), la(n);
+            std::vector<std::size_t> terms(n, 1);
+            for (std::size_t i = 0; i < n; ++i)
+            {
+                lw[i] = static_cast<long double>(c.env.grid->nodes_areas(i)) * static_cast<long double>(src[i]);
+                la[i] = std::fabs(lw[i]);
+            }
+            for (std::size_t d = 0; d < n; ++d)
+                for (std::size_t k = 0; k < S.rec_count[d]; ++k)
+                {
+                    std::size_t r = S.r(d, k);
+                    if (r == d)
+                        continue;
+                    long double t = static_cast<long double>(a1[d]) * static_cast<long double>(S.rw(d, k));
+                    lw[r] += t;
+                    la[r] += std::fabs(t);
+                    ++terms[r];
+                }
+            for (std::size_t i = 0; i < n; ++i)
+            {
+                long double tol = (2.0L * static_cast<long double>(terms[i]) + 4.0L) * std::numeric_limits<double>::epsilon() * la[i] + 1e-300L;
+                if (!(std::fabs(static_cast<long double>(a1[i]) - lw[i]) <= tol))
+                {
+                    c.fail(P, "recurrence_violated", "node " + std::to_string(i) + " accumulate=" + jhex(a1[i]) + " local contribution + weighted donors=" + jnum(static_cast<double>(lw[i])) + " (" + std::to_string(terms[i]) + " terms) source=" + kname);
+                    local_ok = false;
+                    break;
+                }
+            }
+            c.R.count("c03.recurrence_nodes_checked", static_cast<long>(n));
+        }
         if (local_ok)
         {
             if (weights_ok)
@@ -613,7 +679,7 @@ namespace
                 for (std::size_t i = 0; i < n; ++i)
                     if (S.self_only(i))
                         term += a1[i];
-                if (!(std::fabs(term - total) <= 1e-11L * total_abs + 1e-300L))
+                if (!(std::fabs(term - total) <= 10.0L * rel * total_abs + 1e-300L))
                     c.fail(P, "not_conservative", "sum over terminal nodes=" + jnum(static_cast<double>(term)) + " integrated source=" + jnum(static_cast<double>(total)) + " source=" + kname);
                 c.R.count("c03.conservation_checked");
             }
@@ -1242,6 +1308,108 @@ namespace
         return e;
     }
 
+    // large grids whose flow paths are longer than 65535 nodes (index / counter widths, recursion depth, O(N) claims):
+    // a long profile, or a raster carrying one serpentine valley between high walls. Not available for meshes and for
+    // diagonal-only connectivity (no serpentine there): the caller falls back to an ordinary case
+    bool large_available()
+    {
+        if (family == Family::profile)
+            return true;
+        if (family == Family::raster)
+            return raster_connect_id != 2;
+        return false;
+    }
+
+    Env make_env_large(Rng& rng)
+    {
+        Env e;
+        GridSpec g;
+        if (family == Family::profile)
+        {
+            g.rows = 1;
+            g.cols = static_cast<std::size_t>(rng.range(66000, 80000));
+            g.dx = rng.chance(0.5) ? 1.0 : rng.logu(0.1, 30.0);
+            g.border = { { rng.chance(0.5) ? NS::fixed_value : NS::core, rng.chance(0.5) ? NS::fixed_value : NS::core, NS::core, NS::core } };
+        }
+        else
+        {
+            g.rows = static_cast<std::size_t>(rng.range(366, 384));
+            g.cols = static_cast<std::size_t>(rng.range(366, 384));
+            g.dy = rng.chance(0.5) ? 1.0 : rng.logu(0.1, 30.0);
+            g.dx = rng.chance(0.5) ? g.dy : rng.logu(0.1, 30.0);
+            NS b = rng.chance(0.5) ? NS::core : NS::fixed_gradient;
+            g.border = { { b, b, b, b } };
+        }
+        e.g = g;
+        e.R = ref_geom(e.g);
+        e.grid = make_grid(e.g);
+        return e;
+    }
+
+    // one valley of length ~ N (profile) or ~ N / 2 (raster: even rows are the valley floor, odd rows are walls pierced at
+    // alternating ends); elevation increases along the valley from `outlet`
+    FlowInputs gen_inputs_long_path(Rng& rng, const Env& e)
+    {
+        FlowInputs in;
+        const GridSpec& g = e.g;
+        const std::size_t n = e.R.n;
+        in.z.assign(n, 0.0);
+        const double step = rng.pick(std::vector<double>{ 1.0, 1e-3, 0.37 });
+        const double jitter = rng.chance(0.5) ? 0.0 : 0.25 * step;
+        std::size_t outlet = 0;
+        if (family == Family::profile)
+        {
+            const bool rev = rng.chance(0.5);
+            for (std::size_t i = 0; i < n; ++i)
+            {
+                std::size_t pos = rev ? n - 1 - i : i;
+                in.z[i] = step * static_cast<double>(pos) + jitter * rng.u01();
+            }
+            outlet = rev ? n - 1 : 0;
+        }
+        else
+        {
+            const double wall = step * static_cast<double>(n) * 2.0 + 10.0;
+            std::size_t pos = 0;
+            for (std::size_t r = 0; r < g.rows; ++r)
+            {
+                const bool floor_row = r % 2 == 0;
+                const bool left_to_right = (r / 2) % 2 == 0;
+                if (floor_row)
+                {
+                    for (std::size_t k = 0; k < g.cols; ++k)
+                    {
+                        std::size_t c = left_to_right ? k : g.cols - 1 - k;
+                        in.z[r * g.cols + c] = step * static_cast<double>(pos++) + jitter * rng.u01();
+                    }
+                }
+                else
+                {
+                    for (std::size_t c = 0; c < g.cols; ++c)
+                        in.z[r * g.cols + c] = wall + static_cast<double>(c % 7);
+                    // the wall is pierced where the floor row above it ends
+                    std::size_t c = left_to_right ? g.cols - 1 : 0;
+                    in.z[r * g.cols + c] = step * static_cast<double>(pos++) + jitter * rng.u01();
+                }
+            }
+            outlet = 0;
+        }
+        // a few shallow depressions along the valley (work for the resolvers, a handful of basins)
+        const long npits = rng.range(0, 6);
+        for (long k = 0; k < npits; ++k)
+        {
+            std::size_t i = rng.below(n);
+            if (i != outlet && in.z[i] < step * static_cast<double>(n) * 1.5)
+                in.z[i] -= 2.5 * step;
+        }
+        in.field_cls = "long_path";
+        in.mask_cls = "none";
+        in.bl_cls = "single_node";
+        in.bl = { outlet };
+        in.custom_bl = true;
+        return in;
+    }
+
     FlowInputs gen_inputs(Rng& rng, const Env& e, bool no_masked_bl, int force_cls = -1)
     {
         FlowInputs in;
@@ -1438,9 +1606,12 @@ namespace
     }
 
     // ------------------------------------------------------------------------------------ one flow case
-    void flow_case(Runner& R, Rng& rng, const std::string& prop, std::size_t max_side)
+    void flow_case(Runner& R, Rng& rng, const std::string& prop, std::size_t max_side, bool large = false)
     {
-        Env env = make_env(rng, max_side);
+        large = large && large_available();
+        Env env = large ? make_env_large(rng) : make_env(rng, max_side);
+        if (large)
+            R.count("large_grid_cases");
         std::string fam;
         bool no_masked_bl = false;
         if (prop == "C04")
@@ -1457,12 +1628,20 @@ namespace
         else
             fam = "any";  // C03, C06, all
         std::vector<OpSpec> ops = gen_ops(rng, fam);
-        if (prop == "all" && has_resolver(ops))
-            no_masked_bl = true;
+        // masked base levels: legal for routers and for the spanning-tree resolver (a masked node is outside the graph, so a
+        // masked base level is simply not there: the oracles treat it as masked). Priority-flood seeds its flood from every
+        // base level including masked ones, and C01 / C02 do not say what that should mean: not generated for sequences with
+        // priority-flood
+        bool has_pflood = false;
+        for (auto& o : ops)
+            has_pflood = has_pflood || o.kind == OpKind::pflood;
+        if (prop == "C01" || prop == "C02" || prop == "all")
+            no_masked_bl = has_pflood;
         GraphBundle gb = build_graph(*env.grid, ops);
         graph_t& graph = *gb.graph;
         const int nsteps = static_cast<int>(rng.range(1, 3));
         std::vector<FlowInputs> steps;
+        std::vector<double> clean_z;
         R.count("seq." + coarse_cfg(ops));
         R.count(std::string("final.") + (final_single(ops) ? "single" : "multi"));
         for (int s = 0; s < nsteps; ++s)
@@ -1472,11 +1651,16 @@ namespace
             int force = -1;
             if ((prop == "C05" || prop == "C04") && rng.chance(0.2))
                 force = rng.chance(0.5) ? 5 : 2;  // tiny / flat (incl. zero plateau filled by the library)
-            if (s == 0)
+            if (large)
+                // every update of a large case uses a long-valley surface (other parameters each time): generic field classes
+                // would put tens of thousands of pits on a grid of this size, which only measures how long the resolvers take
+                in = gen_inputs_long_path(rng, env);
+            else if (s == 0)
                 in = gen_inputs(rng, env, no_masked_bl, force);
             else
             {
                 in = steps.back();
+                in.z = clean_z;  // without the no-data values written under the previous mask
                 int cls = force >= 0 ? force : static_cast<int>(rng.below(n_field_classes));
                 if (rng.chance(0.85))
                 {
@@ -1517,6 +1701,22 @@ namespace
             R.count("field." + in.field_cls);
             R.count("mask." + in.mask_cls);
             R.count("base_levels." + in.bl_cls);
+            clean_z = in.z;
+            if (!in.mask.empty() && rng.chance(0.25))
+            {
+                // masks exist to hide cells without data: whatever is stored there must not matter
+                const double nodata = rng.pick(std::vector<double>{ -9999.0, -3.4e38, -1e300, 1e300, std::numeric_limits<double>::quiet_NaN(),
+                                                                    std::numeric_limits<double>::infinity(), -std::numeric_limits<double>::infinity(), 0.0 });
+                bool any = false;
+                for (std::size_t i = 0; i < in.z.size(); ++i)
+                    if (in.mask[i])
+                    {
+                        in.z[i] = nodata;
+                        any = true;
+                    }
+                if (any)
+                    R.count("inputs.nodata_under_mask");
+            }
             steps.push_back(in);
             hash_case(R, env, ops, steps);
             if (R.args.dump)
@@ -1701,9 +1901,11 @@ main(int argc, char** argv)
                          std::size_t ms = max_side;
                          if (thorough && rng.chance(0.03))
                              ms = 64;  // a few large grids
+                         else if (!thorough && (prop == "C15" || prop == "all") && rng.chance(0.04))
+                             ms = 40;  // basin graphs large enough for hub basins that stay large after a contraction round
                          if (prop == "C15" || (prop == "all" && k % 5 == 4))
                              basin_case(R_, rng, ms);
                          else
-                             flow_case(R_, rng, prop, ms);
+                             flow_case(R_, rng, prop, ms, k % 1000 == 17);  // one very large grid per 1000 cases
                      });
 }
